@@ -120,6 +120,41 @@ pub fn gen_driver(prop: &str, rng: &mut Rng, sh: &mut Shards, out: &str, thoroug
                 p.stdin = nexts(rng, 400);
                 progs.push((p, Layout::random(rng)));
             }
+            // a syntax error at every token position of a small program: a stray character, a missing operand,
+            // a doubled comma, the file ending in the middle of an instruction
+            let lines_ok = ["mov ax, 5", "add bx, ax", "xchg cl, dh", "inc word [bx, si, 2]", "print reg", "shl dx, 3"];
+            for (li, victim) in lines_ok.iter().enumerate() {
+                let toks: Vec<&str> = victim.split(' ').collect();
+                for ti in 0..toks.len() {
+                    for kind in 0..3 {
+                        let mut tk: Vec<String> = toks.iter().map(|s| s.to_string()).collect();
+                        let needle: String = match kind {
+                            0 => { tk[ti] = format!("{}@", tk[ti]); "@".to_string() }
+                            1 => { tk.insert(ti, "$".to_string()); "$".to_string() }
+                            _ => { tk[ti] = format!("#{}", tk[ti]); "#".to_string() }
+                        };
+                        let bad = tk.join(" ");
+                        let mut items: Vec<Item> = vec![Item::Label("start".into())];
+                        for (k, l) in lines_ok.iter().enumerate() {
+                            if k == li { items.push(Item::Bad(Ins::Unsupported { text: bad.clone() }, needle.clone())); } else { items.push(Item::Ins(Ins::Unsupported { text: l.to_string() })); }
+                        }
+                        let mut lay = Layout::random(rng);
+                        lay.vary_spelling = false;
+                        lay.label_same_line = false;
+                        progs.push((Program { data: Vec::new(), items, interp: false, stdin: Vec::new(), note: "syntax-stray-character".into() }, lay));
+                    }
+                }
+                // the file ends inside this instruction (last line, with and without a final newline)
+                for nl in [true, false] {
+                    let cut = victim.rfind(' ').unwrap();
+                    let mut items: Vec<Item> = vec![Item::Label("start".into())];
+                    for l in lines_ok.iter().take(li) { items.push(Item::Ins(Ins::Unsupported { text: l.to_string() })); }
+                    items.push(Item::Bad(Ins::Unsupported { text: victim[..cut].trim_end_matches(',').to_string() + if victim[..cut].ends_with(',') { "," } else { "" } }, String::new()));
+                    let mut lay = Layout::plain();
+                    lay.trailing_newline = nl;
+                    progs.push((Program { data: Vec::new(), items, interp: false, stdin: Vec::new(), note: "syntax-truncated".into() }, lay));
+                }
+            }
             // diagnostics must cite the offending line: a sample of the C14 mutants
             let muts = c14_programs(rng, 1);
             progs.extend(muts.into_iter().enumerate().filter(|(i, _)| i % 3 == 0).map(|(_, x)| x));
